@@ -22,7 +22,7 @@ PID = "C13"
 KEEP = {"push", "popf", "init", "addpath", "dpre", "decide", "enter", "leave", "proc", "tstart", "tpop", "tend", "truncated"}
 SLACK = 2          # the bounds are evaluated with this factor; the design bound itself is proved with factor 1
 MC_QUICK = [(2, 1, 2, 2, 2), (3, 1, 1, 2, 2)]
-MC_THOROUGH = MC_QUICK + [(2, 2, 1, 1, 1), (3, 1, 2, 2, 2), (2, 2, 1, 1, 2), (2, 2, 2, 1, 1), (2, 1, 2, 3, 3)]
+MC_THOROUGH = MC_QUICK + [(2, 2, 1, 1, 1), (2, 1, 2, 3, 3), (3, 1, 2, 1, 1)]
 INVS = ["PushBound", "InterruptBound", "DecideBound", "DepthBound", "Antichain", "CounterDomain", "CycleCut"]
 SETTINGS_PLAIN = {"entry.yaml": "- method_list: [\"%unit_init\"]\n", "source.yaml": "[]\n", "sink.yaml": "[]\n", "propagation.yaml": "[]\n"}
 
